@@ -3,7 +3,9 @@ package refmodel
 import (
 	"encoding/json"
 	"sort"
+	"strconv"
 	"strings"
+	"time"
 
 	"verif/spec"
 )
@@ -121,7 +123,22 @@ func leaves(sc *spec.Schema) []J {
 		return []J{JRaw("1.5"), JRaw("0"), JRaw("-2.5e-7"), JRaw("1e2"), JRaw("1.7976931348623157e308"), JRaw("5e-324"), JRaw("0.1")}
 	case "string":
 		if sc.Format == "date-time" {
-			return []J{jstr("2020-01-02T03:04:05Z"), jstr("2020-01-02T03:04:05.123456789+02:00"), jstr("0001-01-01T00:00:00Z")}
+			vals := []string{"2020-01-02T03:04:05Z", "2020-01-02T03:04:05.123456789+02:00", "0001-01-01T00:00:00Z"}
+			// goag's private layout extension (a quoted Go layout literal): the documented wire form is the user's layout
+			if ext, ok := sc.Ext["x-goag-go-time-format"].(string); ok {
+				if layout, err := strconv.Unquote(ext); err == nil {
+					for i, v := range vals {
+						if t, err := time.Parse(time.RFC3339Nano, v); err == nil {
+							vals[i] = t.Format(layout)
+						}
+					}
+				}
+			}
+			var out []J
+			for _, v := range vals {
+				out = append(out, jstr(v))
+			}
+			return out
 		}
 		return []J{jstr("a"), jstr(""), jstr(`q"uote`), jstr(`back\slash`), jstr("<&>"), jstr(" "), jstr("é"), JRaw(`"\u0000"`), JRaw(`"é\n"`)}
 	}
